@@ -385,6 +385,12 @@ def check(ctx):
                 if h.name is None:
                     # no binding: the error cannot be recorded at all
                     only_pass = all(isinstance(s, (ast.Pass, ast.Continue)) for s in h.body)
+                    # coercion retry: the try body applies the coercer (whose refusal is a ValidationError) and no child method
+                    child_calls = [c_ for s_ in n.body for c_ in ast.walk(s_) if isinstance(c_, ast.Call) and isinstance(c_.func, ast.Attribute) and c_.func.attr == "deserialize"]
+                    coercer_calls = [c_ for s_ in n.body for c_ in ast.walk(s_) if isinstance(c_, ast.Call) and norm(c_.func) == "self.coercer"]
+                    if only_pass and coercer_calls and not child_calls:
+                        ctx.ok("C02.R2", construct, "coercion retry: the refusal of the coercer for one target type is not a violation of the datum (documented opt-out)", where=f"{fi.module.relpath}:{h.lineno}")
+                        continue
                     ctx.check(not only_pass, "C02.R2", construct, h, "ValidationError caught without a name and dropped", fi, h)
                     continue
                 if cfg is None:
@@ -553,6 +559,19 @@ def check(ctx):
                 falls_to_raise = all(isinstance(s_, (ast.Pass, ast.Continue)) for s_ in h.body) and _ends_with_raise(fn, n, par)
                 ctx.check(raises or records or falls_to_raise, "C02.R11", construct, h.body[0],
                           f"`except {names}` neither raises nor records an error: the offending element is silently dropped and the node returns a value for non-conforming data", fi, h, detail="raise / record / fall through to the final raise")
+    # ---------------- R12: one try per child
+    ctx.rule("C02.R12", "two children applied to different parts of one item are not guarded by a single try: when the first one fails the second is not evaluated and its violation is not reported", floor=10)
+    from .c08 import eval_order
+    for fi in own_methods(deser_nodes(model)):
+        for t_ in walk_no_nested(fi.node):
+            if not isinstance(t_, ast.Try) or not any(is_ve(model, fi, h.type) for h in t_.handlers):
+                continue
+            class _B:  # statement list wrapper for eval_order
+                body = t_.body
+            kids = eval_order(_B)
+            construct = f"{fi.qualname}:try({','.join(kids) or '-'})"
+            ctx.check(len(set(kids)) <= 1, "C02.R12", construct, None,
+                      f"the try block invokes {kids} under one `except ValidationError`: for an item whose key and value are both invalid only the first violation is reported (the other one appears once the first is fixed)", fi, t_, detail=f"children: {kids or 'none / loop-selected'}")
     # ---------------- R10: order of the flattened errors
     ctx.rule("C02.R10", "ValidationError.errors lists children in natural key order (indices numerically); the stringifying sort key is only the fallback for incomparable keys", floor=2)
     em = model.func(f"{ERRORS_MOD}.ValidationError._errors")
@@ -712,7 +731,7 @@ def mutants(mb):
                 "                elt_errors = set_child_error(elt_errors, 0, err)\n        validate_constraints(data, self.constraints, elt_errors)\n        return values\n\n\n@dataclass\nclass SetMethod", "C02.R4", "ListMethod")
     mb.add_text("key-elt-not-index", P, "                elt_errors = set_child_error(elt_errors, i, err)\n        validate_constraints(data, self.constraints, elt_errors)\n        return data\n", "                elt_errors = set_child_error(elt_errors, elt, err)\n        validate_constraints(data, self.constraints, elt_errors)\n        return data\n", "C02.R4", "ListCheckOnlyMethod")
     # R5
-    mb.add_text("literal-types-set", "apischema/deserialization/__init__.py", "tuple(dict.fromkeys(map(type, value_map)))", "tuple(set(map(type, value_map)))", "C02.R5", "LiteralMethod.types")
+    mb.add_text("literal-types-set", "apischema/deserialization/__init__.py", "tuple(dict.fromkeys(map(type, keys)))", "tuple(set(map(type, value_map)))", "C02.R5", "LiteralMethod.types")
     mb.add_text("requiring-unsorted", P, "                requiring = sorted(field.required_by & data.keys())", "                requiring = field.required_by & data.keys()", "C02.R5", "ObjectMethod")
     mb.add_text("errors-unsorted", "apischema/validation/errors.py", "            child_keys = sorted(self.children)\n", "            child_keys = list(self.children)\n", "C02.R5", "_errors")
     counter_mutants(mb, "C02.R6")
